@@ -102,3 +102,11 @@ check('C12', 'symbolic execution of the MIR of ZervSchema::new / validate / set_
 for e in ENGINES:
     if e['name'] in ('msym', 'native-driver'):
         e['serves_properties'] = sorted(set(e['serves_properties']) | {'C12'})
+
+check('C13', 'symbolic execution of the MIR of panic-prone library kernels (byte slicing, chrono formatting with a symbolic format string, infallible conversions, bump additions) with every MIR panic path as the negated property',
+      'PARTIAL. Decided: in-process panic freedom of derive_short_hash (hashes <= 9 chars incl. non-ASCII), the six template functions with symbolic values / lengths and format_timestamp with EVERY format string up to 3 (4) chars (strftime item validity mirrored from the locked chrono), Zerv::from(SemVer) on all identifier lists <= 3 (4) over {epoch, post, dev, alpha, rc, x, number}, and every bump addition with start values up to 2^64-1. Every panic path of the other properties\' executions is reported by those checks. NOT decided: argument-vector parsing, stdout/stderr separation, exit status and git fault sequences (process level).',
+      'trusted: python std models, the chrono strftime validity model, z3. All findings of this check on the pinned tree were repaired by fix: commits (recorded in known_findings.json).',
+      'DESIGN.md §7 C13')
+for e in ENGINES:
+    if e['name'] in ('msym', 'native-driver'):
+        e['serves_properties'] = sorted(set(e['serves_properties']) | {'C13'})
